@@ -83,6 +83,21 @@ class BitGenStub:
         self.key = key
 
 
+class SeedSeqStub(BitGenStub):
+    """numpy.random.SeedSequence: children are functions of (parent key, number of children spawned before) -- the counter is state of the object"""
+
+    def __init__(self, key):
+        BitGenStub.__init__(self, key)
+        self.n_children_spawned = 0
+
+    def spawn(self, n):
+        out = []
+        for _ in range(int(n)):
+            out.append(SeedSeqStub("%s/child%d" % (self.key, self.n_children_spawned)))
+            self.n_children_spawned += 1
+        return out
+
+
 class PyRandom:
     """stub of the python `random` module (the global Mersenne Twister instance)"""
 
@@ -187,7 +202,7 @@ class NpRandomNS:
         return mk
 
     def SeedSequence(self, entropy=None, **k):
-        return BitGenStub(("ss<%s>" % _termkey(entropy)) if entropy is not None else self._env.trapkey("SeedSequence()"))
+        return SeedSeqStub(("ss<%s>" % _termkey(entropy)) if entropy is not None else self._env.trapkey("SeedSequence()"))
 
     def __getattr__(self, name):
         if name in ("PCG64", "MT19937", "Philox", "SFC64", "PCG64DXSM"):
